@@ -226,15 +226,9 @@ func (h *c24Hist) twinCopy(op *vmodel.Op, res *vmodel.Result, srcBack, dstBack *
 	tw := *op
 	tw.Bucket = h.twin[srcBack]
 	tw.Intent = "twin-same-storage"
-	h.drainAll()
-	tres := vmodel.Exec(h.ctx, h.mw, &tw)
-	calls := h.drainAll()
-	h.checkRouting("CopyObject", []string{tw.SrcBucket, tw.Bucket}, calls, true)
-	for b := range calls {
-		if b != srcBack {
-			h.r.Inconclusive("twin copy did not stay on the source storage")
-		}
-	}
+	// the twin is executed directly on the source's backing storage (no routing
+	// middleware involved): the reference is independent of conditional.go
+	tres := vmodel.Exec(h.ctx, srcBack.real, &tw)
 	h.r.Count("cross_copies_compared_with_twin", 1)
 	h.r.Seen("cross_copy_outcomes", "real="+res.Kind+"|twin="+tres.Kind)
 	if res.Kind != tres.Kind {
@@ -246,7 +240,7 @@ func (h *c24Hist) twinCopy(op *vmodel.Op, res *vmodel.Result, srcBack, dstBack *
 		return
 	}
 	realGet := doGet(h.ctx, h.mw, op.Bucket, op.Key, nil, nil, -1)
-	twinGet := doGet(h.ctx, h.mw, tw.Bucket, tw.Key, nil, nil, -1)
+	twinGet := doGet(h.ctx, srcBack.real, tw.Bucket, tw.Key, nil, nil, -1)
 	h.drainAll()
 	diffs := diffReads(realGet, twinGet, true)
 	var inScope []fieldDiff
@@ -293,20 +287,16 @@ func (h *c24Hist) twinPartCopy(op *vmodel.Op, res *vmodel.Result, srcBack, dstBa
 	}
 	twb := h.twin[srcBack]
 	create := &vmodel.Op{Kind: vmodel.OpMpuCreate, Bucket: twb, Key: op.Key}
-	cres := vmodel.Exec(h.ctx, h.mw, create)
+	cres := vmodel.Exec(h.ctx, srcBack.real, create)
 	if cres.Kind != "" {
 		h.r.Inconclusive("twin CreateMultipartUpload failed: " + cres.ErrText)
 		return
 	}
 	tw := *op
 	tw.Bucket, tw.UploadID, tw.Intent = twb, cres.UploadID, "twin-same-storage"
-	h.drainAll()
-	tres := vmodel.Exec(h.ctx, h.mw, &tw)
-	calls := h.drainAll()
-	h.checkRouting("UploadPartCopy", []string{tw.SrcBucket, tw.Bucket}, calls, true)
+	tres := vmodel.Exec(h.ctx, srcBack.real, &tw)
 	defer func() {
-		vmodel.Exec(h.ctx, h.mw, &vmodel.Op{Kind: vmodel.OpMpuAbort, Bucket: twb, Key: op.Key, UploadID: cres.UploadID})
-		h.drainAll()
+		vmodel.Exec(h.ctx, srcBack.real, &vmodel.Op{Kind: vmodel.OpMpuAbort, Bucket: twb, Key: op.Key, UploadID: cres.UploadID})
 	}()
 	h.r.Count("cross_partcopies_compared_with_twin", 1)
 	if res.Kind != tres.Kind {
@@ -317,8 +307,8 @@ func (h *c24Hist) twinPartCopy(op *vmodel.Op, res *vmodel.Result, srcBack, dstBa
 	if res.Kind != "" {
 		return
 	}
-	part := func(bucket, upload string) string {
-		lp, err := h.mw.ListParts(h.ctx, storage.MustNewBucketName(bucket), storage.MustNewObjectKey(op.Key), storage.MustNewUploadId(upload), storage.ListPartsOptions{MaxParts: 10000})
+	part := func(s storage.Storage, bucket, upload string) string {
+		lp, err := s.ListParts(h.ctx, storage.MustNewBucketName(bucket), storage.MustNewObjectKey(op.Key), storage.MustNewUploadId(upload), storage.ListPartsOptions{MaxParts: 10000})
 		if err != nil {
 			return "ListParts error: " + err.Error()
 		}
@@ -329,7 +319,8 @@ func (h *c24Hist) twinPartCopy(op *vmodel.Op, res *vmodel.Result, srcBack, dstBa
 		}
 		return "part not listed"
 	}
-	a, b := part(op.Bucket, op.UploadID), part(twb, cres.UploadID)
+	a, b := part(h.mw, op.Bucket, op.UploadID), part(srcBack.real, twb, cres.UploadID)
+	h.drainAll()
 	if a != b {
 		h.report("cross-storage-partcopy-differs:bytes", fmt.Sprintf("%s (source on %s, upload on %s): part %d is {%s}, same-storage twin gives {%s}", op, srcBack.label, dstBack.label, op.PartNumber, a, b), nil, nil)
 	}
@@ -522,7 +513,7 @@ func runC24(tier, replay string) {
 	r := vkit.Begin("C24", "exploration", tier)
 	r.SetRule("PRNG-generated histories (vmodel generator biased to CopyObject/UploadPartCopy across buckets, all object/multipart/tagging/versioning/transition ops, plus auxiliary list/head/website/CORS/lifecycle/notification calls) through the real conditional middleware over 3 real backing storages behind recording doubles (2 buckets share storage A, 1 on B, 1 on the default); distinct = distinct (op-kind bigram) and (method x storage reached) pairs")
 	r.Assume("backing storages are metadata-part storages (A: sql parts, B: fs parts, default: sql parts), each with its own SQLite file; recording doubles embed delegator.DelegatingStorage and log method + bucket names before delegating")
-	r.Assume("cross-storage copy oracle: the same copy executed through the same middleware into a twin bucket that is mapped to the source's storage (same-storage path); ETag / checksums / part structure differences are observations")
+	r.Assume("cross-storage copy oracle: the same copy executed directly on the source's backing storage into a twin bucket on that storage (source and destination share a storage, no routing middleware involved); ETag / checksums / part structure differences are observations")
 	rp := newReporter(r)
 	rf := loadReplay(replay)
 	ctx := context.Background()
